@@ -9,6 +9,8 @@ import builtins
 import os
 from typing import Dict, List, Optional, Tuple
 
+from .desugar import desugar
+
 
 class AnalysisError(Exception):
     """The analysis itself cannot proceed (anchor missing, budget exceeded, ...)"""
@@ -150,6 +152,7 @@ class Module:
         self.source = source
         try:
             self.tree = ast.parse(source, filename=relpath, type_comments=True)
+            desugar(self.tree)
             for node in ast.walk(self.tree):
                 if isinstance(node, ast.comprehension):
                     # generator clauses carry no position of their own
